@@ -31,7 +31,7 @@ func verifAction(maxEventSize int, cutOff bool) *MultilineAction {
 const verifMetaFields = `"k8s_namespace":"ns","k8s_pod":"pod","k8s_container_id":"cid","k8s_container":"c"`
 
 // chunk texts (already JSON-escaped, as the container runtime writes them)
-var verifChunks = []string{`a`, `bc`, `\"q`, `d\\`, `\u00e9z`, `e\\n`} // the last one: a literal backslash followed by the letter n
+var verifChunks = []string{`a`, `bc`, `\"q`, `d\\`, `\u00e9z`, `e\\n`, `\\`, ``} // `e\\n`: a literal backslash followed by the letter n; `\\`: only a backslash; the empty chunk (with a line end: an empty line)
 
 // C15.H2 / C13: the k8s multi-line action joins the partial chunks of one container log line.
 func VerifH_C15_k8sChunks() {
